@@ -1,7 +1,7 @@
 """C10 - all creators and all hashers agree on the same payload."""
 import os
 
-from harness import impl, refspec
+from harness import gen, impl, refspec
 from harness.common import Driver, Run, hx, sandbox
 from harness.props import creation as cr
 from harness.props.c02 import scaled_sweep, settle_model
@@ -20,13 +20,27 @@ def run_case(run, drv, files, pl, single, tag):
     with sandbox("c10") as box:
         root, name = cr.materialize(box, files, single)
         metas = {}
+        inside = not single and run.rng.random() < 0.15
+        junk = b"d4:infod4:name3:olde7:comment23:left by an earlier rune"
+        mfiles = files
+        if inside:
+            # the output path lies INSIDE the payload and already exists (a second run of
+            # `create -o album/album.torrent album`): it is a payload file like any other
+            case["out_inside_payload"] = True
+            from harness.common import Blob
+            mfiles = gen.FileList(list(files) + [("album.torrent", Blob.hexb(junk))])
+            mfiles.emptydirs = getattr(files, "emptydirs", ())
         for kind in ("a2", "v2", "a3", "hy"):
             out = os.path.join(box, kind + ".torrent")
+            if inside:
+                out = os.path.join(root, "album.torrent")
+                with open(out, "wb") as fd:
+                    fd.write(junk)
             try:
                 spelled, prog = cr.variant(run.rng, root, single)
                 metas[kind] = impl.create(kind, spelled, out, piece_length=pl, progress=prog)
                 cr.ask_createfull(drv, ("createfull", dict(case, creator=kind), metas[kind]), kind,
-                                  files, pl, single, name, metas[kind])
+                                  mfiles, pl, single, name, metas[kind])
             except Exception as exc:
                 run.fail("impl-vs-spec", dict(case, creator=kind), {"raised": repr(exc)})
         for a, b in (("a2", "v2"), ("a3", "hy")):
